@@ -311,6 +311,38 @@ def atomicPowers : IExp → Bool
   | pow (atom _ _) _ => true
   | pow _ _ => false
 
+/-- every atom is the table entry of its rank, no exponent is `0` -/
+def wfI (sh : Nat → Nat) : IExp → Bool
+  | .atom i s => s == sh i
+  | .num _ => true
+  | .add a b => wfI sh a && wfI sh b
+  | .sub a b => wfI sh a && wfI sh b
+  | .mul a b => wfI sh a && wfI sh b
+  | .neg a => wfI sh a
+  | .pow b e => (e != 0) && wfI sh b
+
+def atomsOfI : IExp → List (Nat × Nat)
+  | .atom i s => [(i, s)]
+  | .num _ => []
+  | .add a b => atomsOfI a ++ atomsOfI b
+  | .sub a b => atomsOfI a ++ atomsOfI b
+  | .mul a b => atomsOfI a ++ atomsOfI b
+  | .neg a => atomsOfI a
+  | .pow b _ => atomsOfI b
+
+/-- the size table read off a list of atoms (first occurrence of each rank) -/
+def shOf (l : List (Nat × Nat)) (i : Nat) : Nat :=
+  match l.find? (fun p => p.1 == i) with
+  | some p => p.2
+  | none => 0
+
+/-- the fragment of `int_norm_canonical`, decided by the driver: powers only of atoms, no exponent
+`0`, and atoms determined by their rank (every atom is the entry of its rank in the table read off
+the two terms) -/
+def fragI (a b : IExp) : Bool :=
+  atomicPowers a && atomicPowers b &&
+    wfI (shOf (atomsOfI a ++ atomsOfI b)) a && wfI (shOf (atomsOfI a ++ atomsOfI b)) b
+
 /-- Value in ℤ. -/
 def evalI (ρ : Nat → Int) : IExp → Int
   | atom i _ => ρ i
